@@ -1,12 +1,564 @@
-(* PLACEHOLDER until the full model of markup/line_parser.go lands: text without markup. *)
+(* markup/line_parser.go, processors.go, parse_result.go (after the repairs D14-D17, D25),
+   function by function, over lists of runes.  The Go reader is the list of runes still to read;
+   peekRune's convention "EOF is the rune 0 without error" is kept.  Every loop runs on fuel derived
+   from the input; Proofs/MarkupProofs.v shows the fuel never runs out.
+   Results: Some (text, attributes) | None (an error value; the parser has no panic site). *)
 From Coq Require Import List ZArith NArith Bool.
-From YS Require Import Base.Sexp Num.F64 Yarn.Ast Yarn.Value.
+From YS Require Import Base.Sexp Num.F64 Num.Decimal Yarn.Ast Yarn.Value Generated.UnicodeTables.
 Import ListNotations.
+Local Open Scope Z_scope.
 
 Inductive mvalue := MInt (i : Z) | MFloat (f : f64) | MStr (s : str) | MBool (b : bool).
 Record attribute := { aname : str; apos : Z; alen : Z; asrc : Z; aprops : list (str * mvalue) }.
 
-Definition has_bracket (s : str) : bool := existsb (fun c => N.eqb c 91 || N.eqb c 93) s.
+Inductive tagtype := TOpen | TClose | TSelfClosing | TCloseAll.
+Record marker := { mname : str; mpos : Z; msrc : Z; mprops : list (str * mvalue); mtype : tagtype }.
 
-Definition parse_markup (s : str) : option (str * list attribute) :=
-  Some (trim_space s, []).
+(* ---- character classes ---- *)
+Fixpoint in_ranges (rs : list (N * N)) (c : N) : bool :=
+  match rs with
+  | [] => false
+  | (lo, hi) :: r => if (c <? lo)%N then false else if (c <=? hi)%N then true else in_ranges r c
+  end.
+Definition is_letter (c : N) : bool := in_ranges letter_ranges c.
+Definition is_udigit (c : N) : bool := in_ranges digit_ranges c.
+Definition is_id_char (c : N) : bool := is_letter c || is_udigit c || (c =? 95)%N.
+(* \s of Go's regexp package *)
+Definition is_re_space (c : N) : bool := ((c =? 9) || (c =? 10) || (c =? 12) || (c =? 13) || (c =? 32))%N.
+
+(* ---- the reader: runes still to read, and sourcePosition ---- *)
+Record rd := { rest : list rune; sp : Z }.
+Definition peek (r : rd) : rune := match rest r with [] => 0%N | c :: _ => c end.
+
+(* consumeWhitespace (never fails: peekRune turns EOF into the rune 0) *)
+Fixpoint consume_ws_list (l : list rune) (p : Z) : rd :=
+  match l with
+  | c :: t => if is_space c then consume_ws_list t (p + 1) else {| rest := l; sp := p |}
+  | [] => {| rest := []; sp := p |}
+  end.
+Definition consume_ws (r : rd) : rd := consume_ws_list (rest r) (sp r).
+
+(* expectPeek c, for c <> 0 *)
+Definition expect_peek (r : rd) (c : rune) : bool * rd :=
+  let r1 := consume_ws r in (N.eqb (peek r1) c, r1).
+
+(* parseRune c *)
+Definition parse_rune (r : rd) (c : rune) : option rd :=
+  let r1 := consume_ws r in
+  match rest r1 with
+  | [] => None                                           (* unexpected end of line *)
+  | x :: t => if N.eqb x c then Some {| rest := t; sp := sp r1 + 1 |} else None
+  end.
+
+(* the tail loop of parseID / parseDigits: take runes while [ok] *)
+Fixpoint take_while (ok : N -> bool) (l : list rune) (p : Z) (acc : str) : str * rd :=
+  match l with
+  | c :: t => if ok c then take_while ok t (p + 1) (c :: acc) else (rev acc, {| rest := l; sp := p |})
+  | [] => (rev acc, {| rest := []; sp := p |})
+  end.
+
+(* parseID (the surrogate branches are unreachable: decoding a Go string never yields one) *)
+Definition parse_id (r : rd) : option (str * rd) :=
+  let r1 := consume_ws r in
+  match rest r1 with
+  | [] => None
+  | c :: t => if is_id_char c then Some (take_while is_id_char t (sp r1 + 1) [c]) else None
+  end.
+
+(* parseDigits *)
+Definition parse_digits (r : rd) : str * rd :=
+  let r1 := consume_ws r in take_while is_udigit (rest r1) (sp r1) [].
+
+(* parseString *)
+Fixpoint parse_string_body (l : list rune) (p : Z) (acc : str) : option (str * rd) :=
+  match l with
+  | [] => None
+  | c :: t =>
+      if N.eqb c 34 then Some (rev acc, {| rest := t; sp := p + 1 |})
+      else if N.eqb c 92 then
+        match t with
+        | [] => None
+        | e :: t' => parse_string_body t' (p + 2) (e :: acc)
+        end
+      else parse_string_body t (p + 1) (c :: acc)
+  end.
+
+Definition parse_string (r : rd) : option (str * rd) :=
+  let r1 := consume_ws r in
+  match rest r1 with
+  | c :: t => if N.eqb c 34 then parse_string_body t (sp r1 + 1) [] else None
+  | [] => None
+  end.
+
+Definition all_ascii_digits (s : str) : bool := forallb is_digit s.
+
+Definition ascii_lower (s : str) : str := map lower s.
+
+(* parseValue *)
+Definition parse_value (r : rd) : option (mvalue * rd) :=
+  let r0 := consume_ws r in
+  if is_udigit (peek r0) then
+    let '(ds, r1) := parse_digits r0 in
+    let '(dot, r2) := expect_peek r1 46%N in
+    if dot then
+      match parse_rune r2 46%N with
+      | None => None
+      | Some r3 =>
+          let '(fs, r4) := parse_digits r3 in
+          match fs with
+          | [] => None
+          | _ => if all_ascii_digits ds && all_ascii_digits fs then
+                   match parse_float (ds ++ 46%N :: fs) with
+                   | Some f => Some (MFloat f, r4)
+                   | None => None
+                   end
+                 else None
+          end
+      end
+    else
+      if all_ascii_digits ds then
+        match digits_val 0 ds with
+        | Some i => if i <? two63 then Some (MInt i, r2) else None      (* Atoi range *)
+        | None => None
+        end
+      else None
+  else
+    let '(q, r1) := expect_peek r0 34%N in
+    if q then
+      match parse_string r1 with
+      | Some (s, r2) => Some (MStr s, r2)
+      | None => None
+      end
+    else
+      match parse_id r1 with
+      | Some (w, r2) =>
+          let lw := ascii_lower w in
+          if str_eqb lw (STR "true") then Some (MBool true, r2)
+          else if str_eqb lw (STR "false") then Some (MBool false, r2)
+          else Some (MStr w, r2)
+      | None => None
+      end.
+
+(* the property loop of parseAttributeMarker *)
+Fixpoint parse_props (fuel : nat) (r : rd) (name : str) (props : list (str * mvalue)) (pos src : Z)
+  : option (marker * rd) :=
+  match fuel with
+  | O => None
+  | S f =>
+    let r1 := consume_ws r in
+    let c := peek r1 in
+    if N.eqb c 93 then
+      match parse_rune r1 93%N with
+      | Some r2 => Some ({| mname := name; mpos := pos; msrc := src; mprops := props; mtype := TOpen |}, r2)
+      | None => None
+      end
+    else if N.eqb c 47 then
+      match parse_rune r1 47%N with
+      | Some r2 => match parse_rune r2 93%N with
+                   | Some r3 => Some ({| mname := name; mpos := pos; msrc := src; mprops := props;
+                                         mtype := TSelfClosing |}, r3)
+                   | None => None
+                   end
+      | None => None
+      end
+    else
+      match parse_id r1 with
+      | Some (pn, r2) =>
+          match parse_rune r2 61%N with
+          | Some r3 => match parse_value r3 with
+                       | Some (pv, r4) => parse_props f r4 name (props ++ [(pn, pv)]) pos src
+                       | None => None
+                       end
+          | None => None
+          end
+      | None => None
+      end
+  end.
+
+(* parseAttributeMarker; [r] is positioned after the '[' ; sourcePosition still counts before it *)
+Definition parse_marker (r : rd) (pos : Z) : option (marker * rd) :=
+  let src := sp r in
+  let r0 := {| rest := rest r; sp := sp r + 1 |} in
+  let '(sl, r1) := expect_peek r0 47%N in
+  if sl then
+    match parse_rune r1 47%N with
+    | None => None
+    | Some r2 =>
+        let '(cl, r3) := expect_peek r2 93%N in
+        if cl then
+          match parse_rune r3 93%N with
+          | Some r4 => Some ({| mname := []; mpos := pos; msrc := src; mprops := []; mtype := TCloseAll |}, r4)
+          | None => None
+          end
+        else
+          match parse_id r3 with
+          | Some (nm, r4) => match parse_rune r4 93%N with
+                             | Some r5 => Some ({| mname := nm; mpos := pos; msrc := src; mprops := [];
+                                                   mtype := TClose |}, r5)
+                             | None => None
+                             end
+          | None => None
+          end
+    end
+  else
+    match parse_id r1 with
+    | None => None
+    | Some (nm, r2) =>
+        let '(eq, r3) := expect_peek r2 61%N in
+        if eq then
+          match parse_rune r3 61%N with
+          | Some r4 => match parse_value r4 with
+                       | Some (v, r5) => parse_props (S (length (rest r5))) r5 nm [(nm, v)] pos src
+                       | None => None
+                       end
+          | None => None
+          end
+        else parse_props (S (length (rest r3))) r3 nm [] pos src
+    end.
+
+(* ---- processors.go ---- *)
+Fixpoint get_prop (ps : list (str * mvalue)) (k : str) : option mvalue :=
+  match ps with
+  | [] => None
+  | (k', v) :: r => if str_eqb k' k then Some v else get_prop r k
+  end.
+
+(* markup.Value.toString *)
+Definition mvalue_to_string (v : mvalue) : str :=
+  match v with
+  | MInt i => z_to_str i
+  | MFloat f => let i := to_int64 f in if feqb f (of_Z i) then z_to_str i else fmt_g f
+  | MStr s => s
+  | MBool b => if b then s_True else s_False
+  end.
+
+Fixpoint is_prefix (p l : str) : option str :=
+  match p, l with
+  | [], _ => Some l
+  | x :: p', y :: l' => if N.eqb x y then is_prefix p' l' else None
+  | _ :: _, [] => None
+  end.
+
+(* strings.ReplaceAll for a non-empty [old] *)
+Fixpoint replace_all (fuel : nat) (s old new : str) : str :=
+  match fuel with
+  | O => s
+  | S f =>
+    match s with
+    | [] => []
+    | c :: t => match is_prefix old s with
+                | Some after => new ++ replace_all f after old new
+                | None => c :: replace_all f t old new
+                end
+    end
+  end.
+
+(* strings.ReplaceAll(s, "", new) inserts new before every rune and at the end; only reachable
+   through replacePlaceholders with old = "\\" ++ value, which is never empty *)
+Definition replace_placeholders (replacement value : str) : str :=
+  if existsb (N.eqb 37) replacement then
+    let r := replace_all (S (length replacement)) replacement [37%N] value in
+    replace_all (S (length r)) r (92%N :: value) [37%N]
+  else replacement.
+
+Definition getm (m : marker) (k : str) : option mvalue := get_prop (mprops m) k.
+
+Definition processor_of (name : str) : option (marker -> option str) :=
+  if str_eqb name (STR "nomarkup") then
+    Some (fun m => match getm m (STR "contents") with
+                   | Some c => Some (mvalue_to_string c)
+                   | None => Some []
+                   end)
+  else if str_eqb name (STR "select") then
+    Some (fun m => match getm m (STR "value") with
+                   | None => None
+                   | Some v => let vs := mvalue_to_string v in
+                               match getm m vs with
+                               | None => None
+                               | Some rp => Some (replace_placeholders (mvalue_to_string rp) vs)
+                               end
+                   end)
+  else if str_eqb name (STR "plural") then
+    Some (fun m => match getm m (STR "value") with
+                   | None => None
+                   | Some v =>
+                       let case := match v with
+                                   | MFloat _ => Some (STR "other")
+                                   | MInt i => Some (if i =? 1 then STR "one" else STR "other")
+                                   | _ => None
+                                   end in
+                       match case with
+                       | None => None
+                       | Some cs => match getm m cs with
+                                    | None => None
+                                    | Some rp => Some (replace_placeholders (mvalue_to_string rp) (mvalue_to_string v))
+                                    end
+                       end
+                   end)
+  else if str_eqb name (STR "ordinal") then
+    Some (fun m => match getm m (STR "value") with
+                   | Some (MInt n) =>
+                       let cs := if (Z.rem n 10 =? 1) && negb (Z.rem n 100 =? 11) then STR "one"
+                                 else if (Z.rem n 10 =? 2) && negb (Z.rem n 100 =? 12) then STR "two"
+                                 else if (Z.rem n 10 =? 3) && negb (Z.rem n 100 =? 13) then STR "few"
+                                 else STR "other" in
+                       match getm m cs with
+                       | None => None
+                       | Some rp => Some (replace_placeholders (mvalue_to_string rp) (z_to_str n))
+                       end
+                   | _ => None
+                   end)
+  else None.
+
+(* the regexp \[\s*\/\s*(name)?\s*\] anchored at the head of [l] *)
+Fixpoint skip_re_space (l : list rune) : list rune :=
+  match l with
+  | c :: t => if is_re_space c then skip_re_space t else l
+  | [] => []
+  end.
+
+Definition close_tag_here (name : str) (l : list rune) : bool :=
+  match l with
+  | 91%N :: t =>
+      match skip_re_space t with
+      | 47%N :: t1 =>
+          let t2 := skip_re_space t1 in
+          let direct := match t2 with 93%N :: _ => true | _ => false end in
+          let named := match is_prefix name t2 with
+                       | Some t3 => match skip_re_space t3 with 93%N :: _ => true | _ => false end
+                       | None => false
+                       end in
+          direct || named
+      | _ => false
+      end
+  | _ => false
+  end.
+
+(* parseRawTextUpToAttributeClose: raw text before the leftmost close tag, and the rest from it *)
+Fixpoint split_at_close (name : str) (l : list rune) (acc : str) : option (str * list rune) :=
+  if close_tag_here name l then Some (rev acc, l)
+  else match l with
+       | [] => None
+       | c :: t => split_at_close name t (c :: acc)
+       end.
+
+(* processReplacementMarker *)
+Definition process_replacement (m : marker) (proc : marker -> option str) (r : rd) : option (str * rd) :=
+  match mtype m with
+  | TOpen =>
+      match split_at_close (mname m) (rest r) [] with
+      | None => None
+      | Some (raw, after) =>
+          let m' := {| mname := mname m; mpos := mpos m; msrc := msrc m;
+                       mprops := mprops m ++ [(STR "contents", MStr raw)]; mtype := mtype m |} in
+          match proc m' with
+          | Some t => Some (t, {| rest := after; sp := sp r |})
+          | None => None
+          end
+      end
+  | TSelfClosing => match proc m with Some t => Some (t, r) | None => None end
+  | _ => Some ([], r)
+  end.
+
+(* ---- the main loop of parseMarkup ---- *)
+(* builder: text so far, reversed; blen = its length in runes *)
+Fixpoint main_loop (fuel : nat) (r : rd) (bld : str) (blen : Z) (markers : list marker) (last : rune)
+  : option (str * list marker) :=
+  match fuel with
+  | O => None
+  | S f =>
+    match rest r with
+    | [] => Some (rev bld, markers)
+    | c :: t =>
+        let r1 := {| rest := t; sp := sp r |} in
+        let escaped := N.eqb c 92 && match t with x :: _ => N.eqb x 91 || N.eqb x 93 | [] => false end in
+        if escaped then
+          match t with
+          | x :: t' => main_loop f {| rest := t'; sp := sp r + 1 |} (x :: bld) (blen + 1) markers last
+          | [] => None
+          end
+        else if N.eqb c 91 then
+          match parse_marker r1 blen with
+          | None => None
+          | Some (m, r2) =>
+              let had_ws := (blen =? 0) || is_space last in
+              let replaced :=
+                match processor_of (mname m) with
+                | Some proc => match process_replacement m proc r2 with
+                               | Some (txt, r3) => Some (true, txt, r3)
+                               | None => None
+                               end
+                | None => Some (false, [], r2)
+                end in
+              match replaced with
+              | None => None
+              | Some (was_repl, txt, r3) =>
+                  let bld' := rev txt ++ bld in
+                  let blen' := blen + Z.of_nat (length txt) in
+                  let trim : option bool :=
+                    if had_ws then
+                      let t0 := match mtype m with TSelfClosing => negb was_repl | _ => false end in
+                      match get_prop (mprops m) (STR "trimwhitespace") with
+                      | Some (MBool b) => Some b
+                      | Some _ => None
+                      | None => Some t0
+                      end
+                    else Some false in
+                  match trim with
+                  | None => None
+                  | Some tr =>
+                      let r4 := if tr && is_space (peek r3)
+                                then {| rest := tl (rest r3); sp := sp r3 + 1 |} else r3 in
+                      main_loop f r4 bld' blen' (markers ++ [m]) c
+                  end
+              end
+          end
+        else main_loop f {| rest := t; sp := sp r + 1 |} (c :: bld) (blen + 1) markers c
+    end
+  end.
+
+(* ---- buildAttributesFromMarkers ---- *)
+Definition props_map (ps : list (str * mvalue)) : list (str * mvalue) :=
+  fold_left (fun m kv => aset m (fst kv) (snd kv)) ps [].       (* toPropertyMap: later entries win *)
+
+Definition attr_of (open_m : marker) (len : Z) : attribute :=
+  {| aname := mname open_m; apos := mpos open_m; alen := len; asrc := msrc open_m;
+     aprops := props_map (mprops open_m) |}.
+
+(* index of the most recent unclosed marker with that name *)
+Fixpoint find_last (name : str) (l : list marker) (i : nat) (best : option nat) : option nat :=
+  match l with
+  | [] => best
+  | m :: r => find_last name r (S i) (if str_eqb (mname m) name then Some i else best)
+  end.
+
+Fixpoint remove_nth {A} (l : list A) (n : nat) : list A :=
+  match l, n with
+  | [], _ => []
+  | _ :: t, O => t
+  | h :: t, S k => h :: remove_nth t k
+  end.
+
+Fixpoint build_attrs (ms : list marker) (unclosed : list marker) (acc : list attribute)
+  : option (list attribute) :=
+  match ms with
+  | [] => Some acc
+  | m :: r =>
+      match mtype m with
+      | TOpen => build_attrs r (unclosed ++ [m]) acc
+      | TClose =>
+          match find_last (mname m) unclosed 0 None with
+          | None => None                                      (* unexpected close marker *)
+          | Some i =>
+              match nth_error unclosed i with
+              | Some o => build_attrs r (remove_nth unclosed i) (acc ++ [attr_of o (mpos m - mpos o)])
+              | None => None
+              end
+          end
+      | TSelfClosing => build_attrs r unclosed (acc ++ [attr_of m 0])
+      | TCloseAll =>
+          build_attrs r [] (acc ++ map (fun o => attr_of o (mpos m - mpos o)) unclosed)
+      end
+  end.
+
+(* slices.SortStableFunc by Position: stable insertion sort (fold_right inserts each attribute
+   in front of the later ones with the same position) *)
+Fixpoint insert_attr (a : attribute) (l : list attribute) : list attribute :=
+  match l with
+  | [] => [a]
+  | b :: r => if apos a <=? apos b then a :: l else b :: insert_attr a r
+  end.
+Definition sort_attrs (l : list attribute) : list attribute := fold_right insert_attr [] l.
+
+(* regexp `:\s*` leftmost match on the text: (runes before the colon, runes up to the match end) *)
+Fixpoint count_re_space (l : list rune) : nat :=
+  match l with
+  | c :: t => if is_re_space c then S (count_re_space t) else O
+  | [] => O
+  end.
+
+Fixpoint find_colon (l : list rune) (i : nat) : option (nat * nat) :=
+  match l with
+  | [] => None
+  | c :: t => if N.eqb c 58 then Some (i, S i + count_re_space t)%nat else find_colon t (S i)
+  end.
+
+Definition clampz (lo x hi : Z) : Z := Z.max lo (Z.min x hi).
+
+(* parseMarkup *)
+Definition parse_markup (input : str) : option (str * list attribute) :=
+  match main_loop (S (length input)) {| rest := input; sp := 0 |} [] 0 [] 0%N with
+  | None => None
+  | Some (text, markers) =>
+      match build_attrs markers [] [] with
+      | None => None
+      | Some attrs0 =>
+          let attrs1 := sort_attrs attrs0 in
+          let has_character := existsb (fun a => str_eqb (aname a) (STR "character")) attrs1 in
+          let attrs2 :=
+            if has_character then attrs1 else
+            match find_colon text 0 with
+            | Some (i, j) =>
+                attrs1 ++ [{| aname := STR "character"; apos := 0; alen := Z.of_nat j; asrc := 0;
+                              aprops := [(STR "name", MStr (trim_space (firstn i text)))] |}]
+            | None => attrs1
+            end in
+          let trimmed := trim_space text in
+          let at_start := Z.of_nat (length text) - Z.of_nat (length (trim_left text)) in
+          let tlen := Z.of_nat (length trimmed) in
+          let adjust (a : attribute) :=
+            let start := clampz 0 (apos a - at_start) tlen in
+            let stop := Z.max start (Z.min (apos a - at_start + alen a) tlen) in
+            {| aname := aname a; apos := start; alen := stop - start; asrc := asrc a; aprops := aprops a |} in
+          Some (trimmed, map adjust attrs2)
+      end
+  end.
+
+(* ParseResult.TextForAttribute: None = panic *)
+Definition text_for_attribute (text : str) (a : attribute) : option str :=
+  if alen a =? 0 then Some []
+  else if (apos a <? 0) || (alen a <? 0) || (Z.of_nat (length text) <? apos a + alen a) then None
+  else Some (firstn (Z.to_nat (alen a)) (skipn (Z.to_nat (apos a)) text)).
+
+(* ---- Go's UTF-8 decoding of a string into runes (invalid bytes become U+FFFD, one per byte) ---- *)
+Definition cont (b : N) : bool := ((128 <=? b) && (b <? 192))%N.
+
+Fixpoint utf8_decode (fuel : nat) (bs : list N) : list rune :=
+  match fuel with
+  | O => []
+  | S f =>
+    match bs with
+    | [] => []
+    | b0 :: t =>
+        if (b0 <? 128)%N then b0 :: utf8_decode f t
+        else if ((194 <=? b0) && (b0 <? 224))%N then
+          match t with
+          | b1 :: t1 => if cont b1 then ((b0 - 192) * 64 + (b1 - 128))%N :: utf8_decode f t1
+                        else 65533%N :: utf8_decode f t
+          | [] => [65533%N]
+          end
+        else if ((224 <=? b0) && (b0 <? 240))%N then
+          match t with
+          | b1 :: b2 :: t2 =>
+              let lo := if (b0 =? 224)%N then 160%N else 128%N in
+              let hi := if (b0 =? 237)%N then 160%N else 192%N in
+              if ((lo <=? b1) && (b1 <? hi) && cont b2)%N
+              then ((b0 - 224) * 4096 + (b1 - 128) * 64 + (b2 - 128))%N :: utf8_decode f t2
+              else 65533%N :: utf8_decode f t
+          | _ => 65533%N :: utf8_decode f t
+          end
+        else if ((240 <=? b0) && (b0 <? 245))%N then
+          match t with
+          | b1 :: b2 :: b3 :: t3 =>
+              let lo := if (b0 =? 240)%N then 144%N else 128%N in
+              let hi := if (b0 =? 244)%N then 144%N else 192%N in
+              if ((lo <=? b1) && (b1 <? hi) && cont b2 && cont b3)%N
+              then ((b0 - 240) * 262144 + (b1 - 128) * 4096 + (b2 - 128) * 64 + (b3 - 128))%N :: utf8_decode f t3
+              else 65533%N :: utf8_decode f t
+          | _ => 65533%N :: utf8_decode f t
+          end
+        else 65533%N :: utf8_decode f t
+    end
+  end.
+
+Definition decode (bs : list N) : list rune := utf8_decode (S (length bs)) bs.
